@@ -491,7 +491,7 @@ fn eval_case_strategy() -> impl Strategy<Value = EvalCase> {
 }
 
 pub fn run(rep: &mut Report) {
-    let n = rep.n(400, 12000);
+    let n = rep.n(1500, 15000);
     rep.run_prop(
         "predict",
         "the real predict binary (rebuilt from /repo): generated models with/without tag models \
@@ -506,7 +506,7 @@ rejected line between accepted ones and a line the normaliser changes.",
         predict_case_strategy,
         test_predict,
     );
-    let n = rep.n(250, 8000);
+    let n = rep.n(800, 8000);
     rep.run_prop(
         "evaluate",
         "the real evaluate binary: valid tokenized references (untagged without --predict-tags, \
